@@ -13,7 +13,8 @@ bounded = sorted(set(re.findall(r'bounded stand-in: ([^:]+):', out)))
 confirm = ''
 if len(sys.argv) > 2 and os.path.exists(sys.argv[2]):
     for line in open(sys.argv[2]):
-        if line.startswith(prop + ' '):
+        key = sid[6:] if 'r3' in sid else prop      # round 3: lines start with the area letter
+        if line.startswith(key + ' '):
             confirm = line.strip()
 meta = {
     'seed_id': sid, 'breaks_property': prop,
